@@ -77,13 +77,13 @@ def main():
 
     # 2. generated facts + lake build ----------------------------------------------------------
     gen_err = None
-    if P.get("gen"):
-        import gen_facts
-        with vlib.Lock("gen"):
-            try:
-                gen_facts.generate(P["gen"], libs["plain"][0])
-            except Exception as e:  # extraction itself failed: the tie is broken
-                gen_err = f"{type(e).__name__}: {e}"
+    import gen_facts
+    with vlib.Lock("gen"):
+        try:
+            # the driver imports Gen.Caches, so that one is always regenerated
+            gen_facts.generate(sorted(set(["caches"] + list(P.get("gen", [])))), libs["plain"][0])
+        except Exception as e:  # extraction itself failed: the tie is broken
+            gen_err = f"{type(e).__name__}: {e}"
     ok_model, log_model = vlib.lake_build(["Spq", "spqdriver"])
     if not ok_model:
         print("ERROR: model/driver do not build:\n" + log_model[-3000:])
